@@ -18,6 +18,10 @@ type verifC15 struct {
 	node   []*ProposalNode
 	sent   []bool
 	rootID byte
+	// predicates of the known-finding classes (see /verif/known_findings.json)
+	chainedOrphans bool // a proposal was delivered while its own parent was stored as an orphan, or as the parent of two or more orphan heads
+	rootMoved      bool // the commit rule has moved the root
+	shortChain     bool // the highest-certified marker moved to a node with fewer than three ancestors in the tree
 }
 
 // collect appends all nodes of the subtree (pre-order).
@@ -68,6 +72,7 @@ func (h *verifC15) checkInvariants(when string) {
 	// I2: an orphan subtree head whose parent is in the main tree must have been adopted
 	for e := t.OrphanList.Front(); e != nil; e = e.Next() {
 		o := e.Value.(*ProposalNode)
+		vrt.Known("orphan-forest-not-merged", h.chainedOrphans)
 		vrt.Assert(t.DFSQueryNode(o.In.GetParentProposalId()) == nil, "orphan-with-present-parent-is-adopted")
 	}
 	// I3: the highest-certified marker is a node of the tree
@@ -78,15 +83,19 @@ func (h *verifC15) checkInvariants(when string) {
 			inMain = true
 		}
 	}
+	vrt.Known("marker-above-root-after-commit", h.rootMoved)
 	vrt.Assert(inMain, "highqc-in-tree")
 	// I4: generic / locked / commit markers, when set, are the successive ancestors
 	if t.GenericQC != nil {
+		vrt.Known("stale-markers-after-short-chain", h.shortChain)
 		vrt.Assert(h.parentOf(t.HighQC) == t.GenericQC, "generic-is-parent-of-high")
 	}
 	if t.LockedQC != nil && t.GenericQC != nil {
+		vrt.Known("stale-markers-after-short-chain", h.shortChain)
 		vrt.Assert(h.parentOf(t.GenericQC) == t.LockedQC, "locked-is-grandparent-of-high")
 	}
 	if t.CommitQC != nil && t.LockedQC != nil && t.GenericQC != nil && t.CommitQC != t.Genesis {
+		vrt.Known("stale-markers-after-short-chain", h.shortChain)
 		vrt.Assert(h.parentOf(t.LockedQC) == t.CommitQC, "commit-is-great-grandparent-of-high")
 	}
 	_ = when
@@ -159,10 +168,27 @@ func verifC15Drive(P, S int, deliverAllFirst bool) {
 			i = vrt.Choice("target", P)
 		}
 		highBefore := h.t.HighQC.In.GetProposalView()
+		highNodeBefore := h.t.HighQC
 		rootBefore := h.t.Root
+		var underRootBefore []*ProposalNode
+		verifCollect(rootBefore, &underRootBefore, 0)
 		switch kind {
 		case 0: // a proposal arrives (any order, duplicates allowed)
 			n := h.node[i]
+			// class predicate: is the parent of this proposal currently stored as an orphan?
+			heads := 0
+			for e := h.t.OrphanList.Front(); e != nil; e = e.Next() {
+				o := e.Value.(*ProposalNode)
+				if DFSQuery(o, n.In.GetParentProposalId()) != nil {
+					h.chainedOrphans = true
+				}
+				if string(o.In.GetParentProposalId()) == string(n.In.GetProposalId()) {
+					heads++
+				}
+			}
+			if heads >= 2 && h.t.DFSQueryNode(n.In.GetParentProposalId()) == nil {
+				h.chainedOrphans = true
+			}
 			if h.sent[i] {
 				// a duplicate delivery is a fresh object with the same content
 				n = &ProposalNode{In: n.In}
@@ -177,12 +203,31 @@ func verifC15Drive(P, S int, deliverAllFirst bool) {
 		case 2: // commit rule fires for proposal i
 			h.t.updateCommit(h.id[i])
 			// I6: the new root is the old root or one of its descendants
-			vrt.Assert(DFSQuery(rootBefore, h.t.Root.In.GetProposalId()) == h.t.Root, "root-moves-to-descendant")
+			desc := false
+			for _, x := range underRootBefore {
+				if x == h.t.Root {
+					desc = true
+				}
+			}
+			vrt.Assert(desc, "root-moves-to-descendant")
 		case 3: // explicit rollback
 			h.t.enforceUpdateHighQC(h.id[i])
 		}
+		if h.t.HighQC != highNodeBefore && kind != 3 {
+			p1 := h.parentOf(h.t.HighQC)
+			p2 := h.parentOf(p1)
+			p3 := h.parentOf(p2)
+			if p1 == nil || p2 == nil || p3 == nil {
+				h.shortChain = true
+			}
+		}
+		if h.t.Root != rootBefore {
+			h.rootMoved = true
+		}
 		vrt.Cover("orphan-present", h.t.OrphanList.Len() > 0)
-		vrt.Cover("root-moved", h.t.Root != root)
+		if deliverAllFirst {
+			vrt.Cover("root-moved", h.t.Root != root)
+		}
 		h.checkInvariants("step")
 	}
 }
